@@ -21,12 +21,13 @@ def run(ctx):
     monitor.enable(*monitors(ctx))
     from .. import w_suite
     w_suite.maybe(ctx)      # thorough tier: the repository's own tests under this property's monitors
-    from .. import w_misc
-    w_misc.drive_session(ctx, ctx.tier)   # long-lived signature objects through many operations
+    from .. import w_misc, core
     ctx.floor('C02.embed_calls', 500)
     ctx.floor('C02.exactness_checked', 200)
     ctx.floor('C02.law_fold', 20)
-    w_alg.drive_embed(ctx, ctx.tier)
+    core.run_slices(ctx, [
+        (7, lambda: w_alg.drive_embed(ctx, ctx.tier)),
+        (2, lambda: w_misc.drive_session(ctx, ctx.tier))])    # long-lived signature objects through many operations
 
 
 def replay(ctx, rec):
